@@ -129,7 +129,34 @@ def run(tier):
     vs, _ = tlc.validate("GeomTrace", [{k: v for k, v in r.items() if k != "tag"} for r in (e, eb, f, fb)])
     _expect("bridge: two nodes' coordinate owners swapped", vs[0], vs[1], "C18_OwnPosition", results)
     _expect("forward map: one coefficient perturbed", vs[2], vs[3], "C18_BeadIsNormalisedAverage", results)
+    # ---- (b) vacuity: every action of every design model is taken at least once (TLC -coverage 1) ----
+    import re
+    from . import mc
+    models = [("ResolveDesign", dict(MaxNodes=2, Orders="Ord012", TemplateNames="TN6"), "Spec"),
+              ("SamplerMC", dict(CfgIds="IdsAll", TargetIdx=1, MaxSteps=3), "Spec"),
+              ("ResolverAPI", dict(Inputs="{1, 4}", Levels="Lv", MaxObjs=2, MaxEvents=4, Ctors="CtorsAll"), "Spec"),
+              ("Writer", dict(MaxN=3, Orders="Ord012"), "Spec"),
+              ("CGGraphMC", dict(MaxLen=5, NodeToks="Nodes2", SymToks="SymQuick", RingToks="Rings1", MultCounts="Mult2",
+                                 MaxDepth=1, MaxOpen=1, EmitAll="FALSE"), "Spec"),
+              ("FragTextMC", dict(MaxLen=3, AtomToks="AtomsQ", DescToks="DescQ", SymToks="SymsQ", RingToks="RingsQ",
+                                  SlashToks="NoSlash", Coarse="FALSE", MaxDepth=1, MaxDesc=2), "Spec")]
+    for module, consts, _ in models:
+        d = mc.write_cfg("cov", consts, [])
+        import os
+        cfgp = os.path.join(d, "cov.cfg")
+        txt = open(cfgp).read().replace("Inputs <- ", "Inputs = ")
+        open(cfgp, "w").write(txt)
+        r = tlc.run(module, cfg="cov", workers=4, cwd=d, coverage=True, timeout=600)
+        acts = {}
+        for line in r.stdout.splitlines():
+            m = re.match(r"^<(\w+) line \d+, col \d+ to line \d+, col \d+ of module (\w+)>: (\d+):(\d+)", line)
+            if m:
+                acts[m.group(1)] = max(acts.get(m.group(1), 0), int(m.group(4)))
+        never = sorted(a for a, n in acts.items() if n == 0)
+        ok = bool(acts) and not never
+        results.append(("vacuity: every action of " + module + " is taken", "coverage", ok, ok))
+        print(("ok   " if ok else "FAIL ") + f"vacuity {module}: actions {acts}" + (f" NEVER TAKEN: {never}" if never else ""))
     bad = [r for r in results if not (r[2] and r[3])]
-    print(f"selftest: {len(results) - len(bad)}/{len(results)} corruptions rejected with the expected clause")
+    print(f"selftest: {len(results) - len(bad)}/{len(results)} corruptions rejected with the expected clause / models non-vacuous")
     common.dump_json(common.VERIF + "/evidence/selftest.json", {"results": results, "seed": common.SEED})
     return 1 if bad else 0
